@@ -710,9 +710,65 @@ def _golden_fn():
     return _GM
 
 
+def tosa_text(p, clamp, outw, rm):
+    t = ("builtin.module {\n"
+         '%0 = "test.op"() : () -> tensor<?x8xi32>\n'
+         f'%input_zp = "tosa.const"() <{{ values = dense<{p["zp_in"]}> : tensor<1xi32> }}> : () -> tensor<1xi32>\n'
+         f'%output_zp = "tosa.const"() <{{ values = dense<{p["zp_out"]}> : tensor<1xi32> }}> : () -> tensor<1xi32>\n'
+         f'%multiplier = "tosa.const"() <{{ values = dense<{p["mult"]}> : tensor<1xi32> }}> : () -> tensor<1xi32>\n'
+         f'%shift = "tosa.const"() <{{ values = dense<{p["shift"]}> : tensor<1xi32> }}> : () -> tensor<1xi32>\n'
+         f"%1 = tosa.rescale %0, %multiplier, %shift, %input_zp, %output_zp {{rounding_mode = {rm}, per_channel = false, scale32 = true, "
+         f"input_unsigned = false, output_unsigned = false}} : (tensor<?x8xi32>, tensor<1xi32>, tensor<1xi32>, tensor<1xi32>, tensor<1xi32>) "
+         f"-> tensor<?x8xi{outw}>\n")
+    if clamp:
+        t += (f"%2 = tosa.clamp %1 {{max_val = {clamp[1]} : i{outw}, min_val = {clamp[0]} : i{outw}}} : (tensor<?x8xi{outw}>) -> tensor<?x8xi{outw}>\n"
+              f'"test.op"(%2) : (tensor<?x8xi{outw}>) -> ()\n')
+    else:
+        t += f'"test.op"(%1) : (tensor<?x8xi{outw}>) -> ()\n'
+    return t + "}\n"
+
+
+def check_tosa(ctx, n):
+    """convert-tosa-to-kernel: the kernel.rescale that replaces tosa.rescale (+ tosa.clamp) must carry the parameters of
+    clip((x - zp_in) * mult >> shift + zp_out, lo, hi): lo/hi = the clamp bounds, or the signed range of the output type."""
+    from snaxc.transforms.convert_tosa_to_kernel import ConvertTosaToKernelPass
+    rng = ctx.rng
+    fails = []
+    for i in range(n):
+        p = dict(zp_in=rng.choice([0, 3, -7, 100]), zp_out=rng.choice([0, -128, 5, 127]), mult=rng.choice([1085889731, 1 << 30, 12345, 1]),
+                 shift=rng.choice([37, 31, 40, 12, 1]))
+        outw = 8 if i % 4 != 3 else 32
+        h = 1 << (outw - 1)
+        clamp = None if i % 2 == 0 else tuple(sorted((rng.randrange(-h, h), rng.randrange(-h, h))))
+        rm = rng.choice(["DOUBLE_ROUND", "SINGLE_ROUND"])
+        try:
+            mod = parse(tosa_text(p, clamp, outw, rm))
+            ConvertTosaToKernelPass().apply(xmain().ctx, mod)
+            mod.verify()
+            ks = [o for o in mod.walk() if o.name == "kernel.rescale"]
+        except Exception as e:  # loud
+            ctx.count({"L2": "tosa", "error": repr(e)[:100]}, False, None, "L2-tosa-error")
+            continue
+        ctx.count({"L2": "tosa", "params": p, "clamp": clamp, "out": outw, "rounding": rm}, True, None, "L2-tosa")
+        want = dict(input_zp=p["zp_in"], output_zp=p["zp_out"], multiplier=[p["mult"]], shift=[p["shift"]],
+                    min_int=clamp[0] if clamp else -h, max_int=clamp[1] if clamp else h - 1, double_round=(rm == "DOUBLE_ROUND"))
+        if len(ks) != 1:
+            fails.append({"what": "tosa-rescale-not-converted", "klass": None, "params": p, "clamp": clamp, "out": outw})
+            continue
+        k = ks[0]
+        got = dict(input_zp=k.input_zp.value.data, output_zp=k.output_zp.value.data, multiplier=[int(v) for v in k.multiplier.get_values()],
+                   shift=[int(v) for v in k.shift.get_values()], min_int=k.min_int.value.data, max_int=k.max_int.value.data,
+                   double_round=bool(k.double_round.value.data))
+        if got != want:
+            fails.append({"what": "tosa-rescale-parameters", "klass": None, "tosa_params": p, "clamp": clamp, "out": outw, "rounding": rm,
+                          "kernel_rescale": got, "expected": want})
+    return fails
+
+
 def search(ctx, deep=False):
     rng = ctx.rng
     fails = []
+    fails += check_tosa(ctx, ctx.n(24, 200))
     rec = getattr(ctx, "c18_rec", None)
     if rec is None or deep:
         rec = run_recognition(gen_bodies(ctx))
